@@ -1,5 +1,6 @@
-(* C14: the write_start / write_end protocol of the window flavours on one node, for every interleaving of the
-   ranks' events (every event list accepted by prun / prun_sync). *)
+(* C14: the write_start / write_end protocol of the window flavours on one node, for EVERY interleaving of the ranks' events
+   (every event list accepted by prun from pinit), every number of ranks and of rounds, without any calling convention;
+   and the protocol of libsc before the repair of F-C14b (no barrier in write_start, `prun_old`) as regression guard. *)
 From Coq Require Import ZArith Arith List Bool PeanoNat Lia.
 From ScV Require Import C14.ShmemModel.
 Import ListNotations.
@@ -9,210 +10,306 @@ Proof. unfold upd. rewrite Nat.eqb_refl. reflexivity. Qed.
 Lemma upd_other {B} (f : nat -> B) i v j : j <> i -> upd f i v j = f j.
 Proof. intros H. unfold upd. destruct (j =? i) eqn:E; [apply Nat.eqb_eq in E; contradiction|reflexivity]. Qed.
 
-Definition Inv (n : nat) (s : pstate) : Prop :=
-  (forall i, ph s i = Writer -> i = 0) /\
-  (forall i, lk s i = ExclLock -> ph s i = Writer) /\
-  (forall i, ph s i = InBarrier -> arrived s i = S (left_ s i)) /\
-  (forall i, ph s i <> InBarrier -> arrived s i = left_ s i) /\
-  (forall i j, j < n -> left_ s i <= arrived s j).
-
-Lemma Inv_init n v : Inv n (pinit v).
-Proof.
-  unfold Inv, pinit; cbn. repeat split; intros; try discriminate; try reflexivity; lia.
-Qed.
-
 Lemma forallb_seq (f : nat -> bool) n : forallb f (seq 0 n) = true -> forall j, j < n -> f j = true.
 Proof. intros H j Hj. rewrite forallb_forall in H. apply H. apply in_seq. lia. Qed.
+Lemma barrier_done_le n cnt i : barrier_done n cnt i = true -> forall j, j < n -> cnt i <= cnt j.
+Proof. intros H j Hj. apply Nat.leb_le. exact (forallb_seq _ _ H j Hj). Qed.
+Lemma existsb_seq_false (f : nat -> bool) n : (forall j, j < n -> f j = false) -> existsb f (seq 0 n) = false.
+Proof.
+  intros H. destruct (existsb f (seq 0 n)) eqn:E; [|reflexivity].
+  apply existsb_exists in E. destruct E as (j & Hj & Fj). apply in_seq in Hj. rewrite H in Fj by lia. discriminate.
+Qed.
+
+(* how far a rank in a given phase is ahead of the number of write_end calls it has returned from:
+   (write_start calls begun, write_start calls returned from, write_end calls begun) *)
+Definition ahead (p : phase) : nat * nat * nat :=
+  match p with
+  | Reading => (0, 0, 0) | InStart => (1, 0, 0) | Writer | NonWriter => (1, 1, 0) | InBarrier => (1, 1, 1)
+  end.
+Definition lock_of (p : phase) : lock := match p with Reading => SharedLock | Writer => ExclLock | _ => NoLock end.
+
+Record Inv (n : nat) (s : pstate) : Prop := mk_Inv {
+  I_writer : forall i, ph s i = Writer -> i = 0;
+  I_nonwriter : forall i, ph s i = NonWriter -> i <> 0;
+  I_lock : forall i, lk s i = lock_of (ph s i);
+  I_cnt : forall i, (sarrived s i, sleft s i, arrived s i) =
+                    (left_ s i + fst (fst (ahead (ph s i))), left_ s i + snd (fst (ahead (ph s i))), left_ s i + snd (ahead (ph s i)));
+  I_end : forall i j, j < n -> left_ s i <= arrived s j;          (* barrier of write_end *)
+  I_start : forall i j, j < n -> sleft s i <= sarrived s j;       (* barrier of write_start *)
+  I_mem : ph s 0 <> Writer -> mem s = snap s (arrived s 0);
+  I_wround : wround s <= sleft s 0;
+  I_conflict : conflict s = false
+}.
+
+Lemma Inv_init n v : Inv n (pinit v).
+Proof. constructor; cbn; intros; try reflexivity; try lia; try discriminate. Qed.
+
+Ltac phase_of H := match type of H with
+  | match ?p with _ => _ end = true => destruct p eqn:?; try discriminate H
+  end.
+
+Ltac cnt_at I i := let X := fresh "C" in pose proof (I_cnt _ _ I i) as X; cbn [ph lk sarrived sleft arrived left_] in X.
 
 Lemma Inv_step n s e s' : Inv n s -> pstep n s e = Some s' -> Inv n s'.
 Proof.
-  intros (I1 & I2 & I3 & I4 & I5) H. destruct e as [i|i v|i|i]; cbn [pstep] in H.
-  - (* WS *)
-    destruct ((i <? n) && match ph s i with Reading => true | _ => false end) eqn:G; [|discriminate].
-    apply andb_true_iff in G. destruct G as [_ G]. assert (Hp : ph s i = Reading) by (destruct (ph s i); try discriminate; reflexivity).
-    destruct (i =? 0) eqn:E0; injection H as <-; unfold Inv; cbn [ph lk arrived left_].
-    + apply Nat.eqb_eq in E0. subst i. repeat split.
-      * intros j Hj. destruct (Nat.eq_dec j 0) as [->|N]; [reflexivity|]. rewrite (upd_other _ _ _ _ N) in Hj. apply I1. exact Hj.
-      * intros j Hj. destruct (Nat.eq_dec j 0) as [->|N]; [apply upd_same|]. rewrite (upd_other _ _ _ _ N) in Hj; rewrite (upd_other _ _ _ _ N). apply I2. exact Hj.
-      * intros j Hj. destruct (Nat.eq_dec j 0) as [->|N]; [rewrite upd_same in Hj; discriminate|]. rewrite (upd_other _ _ _ _ N) in Hj. apply I3. exact Hj.
-      * intros j Hj. destruct (Nat.eq_dec j 0) as [->|N]; [apply I4; rewrite Hp; discriminate|]. rewrite (upd_other _ _ _ _ N) in Hj. apply I4. exact Hj.
-      * exact I5.
-    + apply Nat.eqb_neq in E0. repeat split.
-      * intros j Hj. destruct (Nat.eq_dec j i) as [->|N]; [rewrite upd_same in Hj; discriminate|]. rewrite (upd_other _ _ _ _ N) in Hj. apply I1. exact Hj.
-      * intros j Hj. destruct (Nat.eq_dec j i) as [->|N]; [rewrite upd_same in Hj; discriminate|]. rewrite (upd_other _ _ _ _ N) in Hj; rewrite (upd_other _ _ _ _ N). apply I2. exact Hj.
-      * intros j Hj. destruct (Nat.eq_dec j i) as [->|N]; [rewrite upd_same in Hj; discriminate|]. rewrite (upd_other _ _ _ _ N) in Hj. apply I3. exact Hj.
-      * intros j Hj. destruct (Nat.eq_dec j i) as [->|N]; [apply I4; rewrite Hp; discriminate|]. rewrite (upd_other _ _ _ _ N) in Hj. apply I4. exact Hj.
-      * exact I5.
+  intros I H. destruct e as [i|i|i v|i|i]; unfold pstep in H; cbn [pstep_gen] in H.
+  - (* WS_arrive *)
+    destruct ((i <? n) && _) eqn:G; [|discriminate]. apply andb_true_iff in G. destruct G as [Gi G]. apply Nat.ltb_lt in Gi.
+    phase_of G. injection H as <-. pose proof (I_cnt _ _ I i) as Ci. rewrite Heqp in Ci. cbn in Ci. injection Ci as C1 C2 C3.
+    constructor; cbn [ph lk sarrived sleft arrived left_ mem snap wround conflict].
+    + intros j Hj. destruct (Nat.eq_dec j i) as [->|N]; [rewrite upd_same in Hj; discriminate|]. rewrite upd_other in Hj by exact N. exact (I_writer _ _ I j Hj).
+    + intros j Hj. destruct (Nat.eq_dec j i) as [->|N]; [rewrite upd_same in Hj; first [discriminate|exact E0]|]. rewrite upd_other in Hj by exact N. exact (I_nonwriter _ _ I j Hj).
+    + intros j. destruct (Nat.eq_dec j i) as [->|N]; [rewrite !upd_same; reflexivity|]. rewrite !upd_other by exact N. exact (I_lock _ _ I j).
+    + intros j. destruct (Nat.eq_dec j i) as [->|N]; [rewrite !upd_same; cbn; repeat f_equal; lia|]. rewrite !upd_other by exact N. exact (I_cnt _ _ I j).
+    + exact (I_end _ _ I).
+    + intros j k Hk. pose proof (I_start _ _ I j k Hk). destruct (Nat.eq_dec k i) as [->|N]; [rewrite upd_same; lia|]. rewrite upd_other by exact N. assumption.
+    + intros Hw. apply (I_mem _ _ I). destruct (Nat.eq_dec 0 i) as [<-|N]; [congruence|]. rewrite upd_other in Hw by exact N. exact Hw.
+    + exact (I_wround _ _ I).
+    + exact (I_conflict _ _ I).
+  - (* WS_leave *)
+    destruct ((i <? n) && _ && _) eqn:G; [|discriminate]. apply andb_true_iff in G. destruct G as [G Gb]. cbn [negb orb] in Gb.
+    apply andb_true_iff in G. destruct G as [Gi G]. apply Nat.ltb_lt in Gi. phase_of G. assert (Hn : 0 < n) by lia.
+    pose proof (barrier_done_le _ _ _ Gb) as B.
+    pose proof (I_cnt _ _ I i) as Ci. rewrite Heqp in Ci. cbn in Ci. injection Ci as C1 C2 C3.
+    destruct (i =? 0) eqn:E0; injection H as <-.
+    + apply Nat.eqb_eq in E0. subst i.
+      constructor; cbn [ph lk sarrived sleft arrived left_ mem snap wround conflict].
+      * intros j Hj. destruct (Nat.eq_dec j 0) as [->|N]; [reflexivity|]. rewrite upd_other in Hj by exact N. exact (I_writer _ _ I j Hj).
+      * intros j Hj. destruct (Nat.eq_dec j 0) as [->|N]; [rewrite upd_same in Hj; discriminate|]. rewrite upd_other in Hj by exact N. exact (I_nonwriter _ _ I j Hj).
+      * intros j. destruct (Nat.eq_dec j 0) as [->|N]; [rewrite !upd_same; reflexivity|]. rewrite !upd_other by exact N. exact (I_lock _ _ I j).
+      * intros j. destruct (Nat.eq_dec j 0) as [->|N]; [rewrite !upd_same; cbn; repeat f_equal; lia|]. rewrite !upd_other by exact N. exact (I_cnt _ _ I j).
+      * exact (I_end _ _ I).
+      * intros j k Hk. destruct (Nat.eq_dec j 0) as [->|N]; [rewrite upd_same; specialize (B k Hk); lia|]. rewrite upd_other by exact N. exact (I_start _ _ I j k Hk).
+      * rewrite upd_same. congruence.
+      * rewrite upd_same. pose proof (I_wround _ _ I). lia.
+      * rewrite (I_conflict _ _ I). cbn [orb]. unfold others_hold. apply existsb_seq_false. intros j Hj.
+        destruct (Nat.eq_dec j 0) as [->|N]; [reflexivity|]. replace (j =? 0) with false by (symmetry; apply Nat.eqb_neq; exact N). cbn [negb andb].
+        rewrite (I_lock _ _ I j). pose proof (I_cnt _ _ I j) as Cj. pose proof (I_end _ _ I j 0 Hn) as E. specialize (B j Hj).
+        destruct (ph s j) eqn:Pj; cbn in Cj |- *; try reflexivity.
+        -- injection Cj as D1 D2 D3. lia.
+        -- exfalso. apply N. exact (I_writer _ _ I j Pj).
+    + apply Nat.eqb_neq in E0.
+      constructor; cbn [ph lk sarrived sleft arrived left_ mem snap wround conflict].
+      * intros j Hj. destruct (Nat.eq_dec j i) as [->|N]; [rewrite upd_same in Hj; discriminate|]. rewrite upd_other in Hj by exact N. exact (I_writer _ _ I j Hj).
+      * intros j Hj. destruct (Nat.eq_dec j i) as [->|N]; [rewrite upd_same in Hj; first [discriminate|exact E0]|]. rewrite upd_other in Hj by exact N. exact (I_nonwriter _ _ I j Hj).
+      * intros j. destruct (Nat.eq_dec j i) as [->|N]; [rewrite !upd_same; rewrite (I_lock _ _ I i), Heqp; reflexivity|]. rewrite !upd_other by exact N. exact (I_lock _ _ I j).
+      * intros j. destruct (Nat.eq_dec j i) as [->|N]; [rewrite !upd_same; cbn; repeat f_equal; lia|]. rewrite !upd_other by exact N. exact (I_cnt _ _ I j).
+      * exact (I_end _ _ I).
+      * intros j k Hk. destruct (Nat.eq_dec j i) as [->|N]; [rewrite upd_same; specialize (B k Hk); lia|]. rewrite upd_other by exact N. exact (I_start _ _ I j k Hk).
+      * rewrite upd_other by (intro X; apply E0; symmetry; exact X). exact (I_mem _ _ I).
+      * rewrite upd_other by (intro X; apply E0; symmetry; exact X). exact (I_wround _ _ I).
+      * exact (I_conflict _ _ I).
   - (* WR *)
-    destruct ((i <? n) && match ph s i with Writer => true | _ => false end); [|discriminate].
-    injection H as <-. unfold Inv; cbn [ph lk arrived left_]. repeat split; assumption.
+    destruct ((i <? n) && _) eqn:G; [|discriminate]. apply andb_true_iff in G. destruct G as [Gi G]. phase_of G.
+    assert (i = 0) by (exact (I_writer _ _ I i Heqp)). subst i. injection H as <-.
+    pose proof (I_cnt _ _ I 0) as Ci. rewrite Heqp in Ci. cbn in Ci. injection Ci as C1 C2 C3.
+    constructor; cbn [ph lk sarrived sleft arrived left_ mem snap wround conflict];
+      try (first [exact (I_writer _ _ I)|exact (I_nonwriter _ _ I)|exact (I_lock _ _ I)|exact (I_cnt _ _ I)|exact (I_end _ _ I)|exact (I_start _ _ I)|exact (I_conflict _ _ I)]).
+    + congruence.
+    + lia.
   - (* WE_arrive *)
-    destruct ((i <? n) && match ph s i with Writer | NonWriter => true | _ => false end) eqn:G; [|discriminate].
-    apply andb_true_iff in G. destruct G as [_ G].
-    assert (Hp : ph s i <> InBarrier) by (destruct (ph s i); try discriminate; congruence).
-    injection H as <-. unfold Inv; cbn [ph lk arrived left_]. repeat split.
-    + intros j Hj. destruct (Nat.eq_dec j i) as [->|N]; [rewrite upd_same in Hj; discriminate|]. rewrite (upd_other _ _ _ _ N) in Hj. apply I1. exact Hj.
-    + intros j Hj. destruct (Nat.eq_dec j i) as [->|N]; [rewrite upd_same in Hj; discriminate|]. rewrite (upd_other _ _ _ _ N) in Hj; rewrite (upd_other _ _ _ _ N). apply I2. exact Hj.
-    + intros j Hj. destruct (Nat.eq_dec j i) as [->|N]; [rewrite upd_same; f_equal; apply I4; exact Hp|].
-      rewrite (upd_other _ _ _ _ N) in Hj; rewrite (upd_other _ _ _ _ N). apply I3. exact Hj.
-    + intros j Hj. destruct (Nat.eq_dec j i) as [->|N]; [rewrite upd_same in Hj; congruence|].
-      rewrite (upd_other _ _ _ _ N) in Hj; rewrite (upd_other _ _ _ _ N). apply I4. exact Hj.
-    + intros j k Hk. destruct (Nat.eq_dec k i) as [->|N]; [rewrite upd_same; specialize (I5 j i Hk); lia|].
-      rewrite upd_other by exact N. apply I5. exact Hk.
+    destruct ((i <? n) && _) eqn:G; [|discriminate]. apply andb_true_iff in G. destruct G as [Gi G]. apply Nat.ltb_lt in Gi.
+    assert (Hp : ph s i = Writer \/ ph s i = NonWriter) by (destruct (ph s i); try discriminate; tauto). clear G.
+    pose proof (I_cnt _ _ I i) as Ci. assert (C : sarrived s i = left_ s i + 1 /\ sleft s i = left_ s i + 1 /\ arrived s i = left_ s i + 0)
+      by (destruct Hp as [Hp|Hp]; rewrite Hp in Ci; cbn in Ci; injection Ci; auto). clear Ci. destruct C as (C1 & C2 & C3).
+    injection H as <-.
+    constructor; cbn [ph lk sarrived sleft arrived left_ mem snap wround conflict].
+    + intros j Hj. destruct (Nat.eq_dec j i) as [->|N]; [rewrite upd_same in Hj; discriminate|]. rewrite upd_other in Hj by exact N. exact (I_writer _ _ I j Hj).
+    + intros j Hj. destruct (Nat.eq_dec j i) as [->|N]; [rewrite upd_same in Hj; first [discriminate|exact E0]|]. rewrite upd_other in Hj by exact N. exact (I_nonwriter _ _ I j Hj).
+    + intros j. destruct (Nat.eq_dec j i) as [->|N]; [rewrite !upd_same; reflexivity|]. rewrite !upd_other by exact N. exact (I_lock _ _ I j).
+    + intros j. destruct (Nat.eq_dec j i) as [->|N]; [rewrite !upd_same; cbn; repeat f_equal; lia|]. rewrite !upd_other by exact N. exact (I_cnt _ _ I j).
+    + intros j k Hk. pose proof (I_end _ _ I j k Hk). destruct (Nat.eq_dec k i) as [->|N]; [rewrite upd_same; lia|]. rewrite upd_other by exact N. assumption.
+    + exact (I_start _ _ I).
+    + destruct (Nat.eq_dec i 0) as [->|N].
+      * intros _. cbn [Nat.eqb]. rewrite !upd_same. reflexivity.
+      * replace (i =? 0) with false by (symmetry; apply Nat.eqb_neq; exact N).
+        rewrite !(upd_other _ i _ 0) by (intro X; apply N; symmetry; exact X). exact (I_mem _ _ I).
+    + exact (I_wround _ _ I).
+    + exact (I_conflict _ _ I).
   - (* WE_leave *)
-    destruct ((i <? n) && match ph s i with InBarrier => true | _ => false end
-              && forallb (fun j => arrived s i <=? arrived s j) (seq 0 n)) eqn:G; [|discriminate].
-    apply andb_true_iff in G. destruct G as [G G2]. apply andb_true_iff in G. destruct G as [_ G].
-    assert (Hp : ph s i = InBarrier) by (destruct (ph s i); try discriminate; reflexivity).
-    injection H as <-. unfold Inv; cbn [ph lk arrived left_]. repeat split.
-    + intros j Hj. destruct (Nat.eq_dec j i) as [->|N]; [rewrite upd_same in Hj; discriminate|]. rewrite (upd_other _ _ _ _ N) in Hj. apply I1. exact Hj.
-    + intros j Hj. destruct (Nat.eq_dec j i) as [->|N]; [rewrite upd_same in Hj; discriminate|]. rewrite (upd_other _ _ _ _ N) in Hj; rewrite (upd_other _ _ _ _ N). apply I2. exact Hj.
-    + intros j Hj. destruct (Nat.eq_dec j i) as [->|N]; [rewrite upd_same in Hj; discriminate|].
-      rewrite (upd_other _ _ _ _ N) in Hj; rewrite (upd_other _ _ _ _ N). apply I3. exact Hj.
-    + intros j Hj. destruct (Nat.eq_dec j i) as [->|N]; [rewrite upd_same; apply I3; exact Hp|].
-      rewrite (upd_other _ _ _ _ N) in Hj; rewrite (upd_other _ _ _ _ N). apply I4. exact Hj.
-    + intros j k Hk. destruct (Nat.eq_dec j i) as [->|N]; [|rewrite upd_other by exact N; apply I5; exact Hk].
-      rewrite upd_same. pose proof (forallb_seq _ _ G2 k Hk) as L. apply Nat.leb_le in L. rewrite (I3 i Hp) in L. exact L.
+    destruct ((i <? n) && _ && _) eqn:G; [|discriminate]. apply andb_true_iff in G. destruct G as [G Gb].
+    apply andb_true_iff in G. destruct G as [Gi G]. apply Nat.ltb_lt in Gi. phase_of G. assert (Hn : 0 < n) by lia.
+    pose proof (barrier_done_le _ _ _ Gb) as B.
+    pose proof (I_cnt _ _ I i) as Ci. rewrite Heqp in Ci. cbn in Ci. injection Ci as C1 C2 C3.
+    injection H as <-.
+    constructor; cbn [ph lk sarrived sleft arrived left_ mem snap wround conflict].
+    + intros j Hj. destruct (Nat.eq_dec j i) as [->|N]; [rewrite upd_same in Hj; discriminate|]. rewrite upd_other in Hj by exact N. exact (I_writer _ _ I j Hj).
+    + intros j Hj. destruct (Nat.eq_dec j i) as [->|N]; [rewrite upd_same in Hj; first [discriminate|exact E0]|]. rewrite upd_other in Hj by exact N. exact (I_nonwriter _ _ I j Hj).
+    + intros j. destruct (Nat.eq_dec j i) as [->|N]; [rewrite !upd_same; reflexivity|]. rewrite !upd_other by exact N. exact (I_lock _ _ I j).
+    + intros j. destruct (Nat.eq_dec j i) as [->|N]; [rewrite !upd_same; cbn; repeat f_equal; lia|]. rewrite !upd_other by exact N. exact (I_cnt _ _ I j).
+    + intros j k Hk. destruct (Nat.eq_dec j i) as [->|N]; [rewrite upd_same; specialize (B k Hk); lia|]. rewrite upd_other by exact N. exact (I_end _ _ I j k Hk).
+    + exact (I_start _ _ I).
+    + intros Hw. apply (I_mem _ _ I). destruct (Nat.eq_dec 0 i) as [<-|N]; [congruence|]. rewrite upd_other in Hw by exact N. exact Hw.
+    + exact (I_wround _ _ I).
+    + rewrite (I_conflict _ _ I). cbn [orb]. unfold others_excl. apply existsb_seq_false. intros j Hj.
+      destruct (Nat.eq_dec j i) as [->|N]; [rewrite Nat.eqb_refl; reflexivity|]. replace (j =? i) with false by (symmetry; apply Nat.eqb_neq; exact N). cbn [negb andb].
+      rewrite (I_lock _ _ I j). destruct (ph s j) eqn:Pj; cbn; try reflexivity. exfalso.
+      assert (j = 0) by exact (I_writer _ _ I j Pj). subst j.
+      pose proof (I_cnt _ _ I 0) as C0. rewrite Pj in C0. cbn in C0. injection C0 as D1 D2 D3.
+      pose proof (I_start _ _ I 0 i Gi). specialize (B 0 Hn). lia.
 Qed.
 
 Lemma Inv_run n es : forall s s', Inv n s -> prun n s es = Some s' -> Inv n s'.
 Proof.
-  induction es as [|e es IH]; intros s s' I H; cbn [prun] in H; [injection H as <-; exact I|].
-  destruct (pstep n s e) as [s1|] eqn:E; [|discriminate]. eapply IH; [eapply Inv_step; eassumption|exact H].
+  induction es as [|e es IH]; intros s s' I H; unfold prun in *; cbn [prun_gen] in H; [injection H as <-; exact I|].
+  destruct (pstep_gen true n s e) as [s1|] eqn:E; [|discriminate]. eapply IH; [eapply Inv_step; eassumption|exact H].
 Qed.
+Lemma reach_Inv n v es s : prun n (pinit v) es = Some s -> Inv n s.
+Proof. apply Inv_run, Inv_init. Qed.
 
-(* exactly one rank of the node is between write_start and write_end WITH write access: intranode rank 0, and only it
-   holds the exclusive lock *)
+(* (a) both MPI_MODE_NOCHECK assertions are true in every reachable state: no lock is ever taken while a conflicting one is held *)
+Theorem nocheck_assertions_hold n v es s : prun n (pinit v) es = Some s -> conflict s = false.
+Proof. intros H. exact (I_conflict _ _ (reach_Inv _ _ _ _ H)). Qed.
+
+(* (b) locks and write access: a rank holds the exclusive lock exactly while it is the writer, the shared lock exactly while it
+   reads; only intranode rank 0 is ever the writer, and exactly between its return from write_start and its entry into write_end *)
 Theorem one_writer n v es s : prun n (pinit v) es = Some s ->
-  (forall i, ph s i = Writer -> i = 0) /\ (forall i, lk s i = ExclLock -> i = 0)
-  /\ (forall i j, ph s i = Writer -> ph s j = Writer -> i = j).
+  (forall i, ph s i = Writer -> i = 0) /\
+  (forall i, lk s i = ExclLock <-> ph s i = Writer) /\
+  (forall i, lk s i = SharedLock <-> ph s i = Reading) /\
+  (forall i j, ph s i = Writer -> ph s j = Writer -> i = j) /\
+  (ph s 0 = Writer <-> sleft s 0 = S (arrived s 0)).
 Proof.
-  intros H. destruct (Inv_run n es _ _ (Inv_init n v) H) as (I1 & I2 & _).
-  split; [exact I1|]. split; [intros i Hi; apply I1, I2; exact Hi|]. intros i j Hi Hj. rewrite (I1 i Hi), (I1 j Hj). reflexivity.
+  intros H. pose proof (reach_Inv _ _ _ _ H) as I. split; [exact (I_writer _ _ I)|]. split; [|split; [|split]].
+  - intros i. rewrite (I_lock _ _ I i). destruct (ph s i); cbn; split; congruence.
+  - intros i. rewrite (I_lock _ _ I i). destruct (ph s i); cbn; split; congruence.
+  - intros i j Hi Hj. rewrite (I_writer _ _ I i Hi), (I_writer _ _ I j Hj). reflexivity.
+  - pose proof (I_cnt _ _ I 0) as C. pose proof (I_nonwriter _ _ I 0) as NW.
+    destruct (ph s 0); cbn in C; injection C as C1 C2 C3; split; intros X; try reflexivity; try discriminate; try lia; exfalso; apply NW; reflexivity.
 Qed.
 
-(* write access is granted to rank 0 and to nobody else, and only rank 0 in that phase can change the array *)
-Theorem write_access n s i s' : pstep n s (WS i) = Some s' -> (ph s' i = Writer <-> i = 0).
+Theorem write_access n s i s' : pstep n s (WS_leave i) = Some s' -> (ph s' i = Writer <-> i = 0).
 Proof.
-  cbn [pstep]. destruct ((i <? n) && match ph s i with Reading => true | _ => false end); [|discriminate].
+  unfold pstep; cbn [pstep_gen]. destruct ((i <? n) && _ && _); [|discriminate].
   destruct (i =? 0) eqn:E; intros H; injection H as <-; cbn [ph]; rewrite upd_same.
   - apply Nat.eqb_eq in E. tauto.
   - apply Nat.eqb_neq in E. split; [discriminate|contradiction].
 Qed.
+
+(* (c) the array changes only by a store of the rank that is the writer at that moment *)
 Theorem array_changes_only_by_writer n s e s' : pstep n s e = Some s' -> mem s' <> mem s ->
   exists i v, e = WR i v /\ ph s i = Writer.
 Proof.
-  destruct e as [i|i v|i|i]; cbn [pstep].
-  - destruct ((i <? n) && _); [|discriminate]. destruct (i =? 0); intros H; injection H as <-; cbn [mem]; congruence.
+  destruct e as [i|i|i v|i|i]; unfold pstep; cbn [pstep_gen].
+  - destruct ((i <? n) && _); [|discriminate]. intros H; injection H as <-; cbn [mem]; congruence.
+  - destruct ((i <? n) && _ && _); [|discriminate]. destruct (i =? 0); intros H; injection H as <-; cbn [mem]; congruence.
   - destruct ((i <? n) && match ph s i with Writer => true | _ => false end) eqn:G; [|discriminate]. intros _ _.
     exists i, v. split; [reflexivity|]. apply andb_true_iff in G. destruct G as [_ G]. destruct (ph s i); try discriminate; reflexivity.
   - destruct ((i <? n) && _); [|discriminate]. intros H; injection H as <-; cbn [mem]; congruence.
   - destruct ((i <? n) && _ && _); [|discriminate]. intros H; injection H as <-; cbn [mem]; congruence.
 Qed.
+Theorem array_changes_only_in_write_round n v es s e s' : prun n (pinit v) es = Some s -> pstep n s e = Some s' -> mem s' <> mem s ->
+  exists x, e = WR 0 x /\ ph s 0 = Writer /\ lk s 0 = ExclLock /\ sleft s 0 = S (arrived s 0) /\
+            forall j, j < n -> j <> 0 -> lk s j = NoLock /\ ph s j <> Reading.
+Proof.
+  intros H St D. destruct (array_changes_only_by_writer _ _ _ _ St D) as (i & x & -> & Hw).
+  pose proof (reach_Inv _ _ _ _ H) as I. assert (i = 0) by exact (I_writer _ _ I i Hw). subst i.
+  exists x. split; [reflexivity|]. split; [exact Hw|]. split; [rewrite (I_lock _ _ I 0), Hw; reflexivity|].
+  pose proof (I_cnt _ _ I 0) as C0. rewrite Hw in C0. cbn in C0. injection C0 as D1 D2 D3. split; [lia|].
+  intros j Hj N. assert (Hn : 0 < n) by lia. pose proof (I_start _ _ I 0 j Hj) as S1. pose proof (I_end _ _ I j 0 Hn) as E1.
+  pose proof (I_cnt _ _ I j) as Cj. rewrite (I_lock _ _ I j).
+  destruct (ph s j) eqn:Pj; cbn in Cj |- *; injection Cj as F1 F2 F3; split; try reflexivity; try discriminate; try lia.
+  exfalso. apply N. exact (I_writer _ _ I j Pj).
+Qed.
 
-(* after write_end: when a rank returns from its k-th write_end the writer has entered its k-th write_end, so
-   everything the writer stored in rounds 1 .. k is in the array *)
-Theorem leave_after_writer_end n v es s i s' : 0 < n -> prun n (pinit v) es = Some s -> pstep n s (WE_leave i) = Some s' ->
+(* after write_end: when a rank returns from its k-th write_end the writer has entered its k-th write_end *)
+Theorem leave_after_writer_end n v es s i s' : prun n (pinit v) es = Some s -> pstep n s (WE_leave i) = Some s' ->
   left_ s' i <= arrived s 0 /\ ph s' i = Reading /\ mem s' = mem s.
 Proof.
-  intros Hn H L. destruct (Inv_run n es _ _ (Inv_init n v) H) as (_ & _ & I3 & _).
-  cbn [pstep] in L.
-  destruct ((i <? n) && match ph s i with InBarrier => true | _ => false end
-            && forallb (fun j => arrived s i <=? arrived s j) (seq 0 n)) eqn:G; [|discriminate].
-  apply andb_true_iff in G. destruct G as [G G2]. apply andb_true_iff in G. destruct G as [_ G].
-  assert (Hp : ph s i = InBarrier) by (destruct (ph s i); try discriminate; reflexivity).
+  intros H L. pose proof (reach_Inv _ _ _ _ H) as I. unfold pstep in L; cbn [pstep_gen] in L.
+  destruct ((i <? n) && _ && _) eqn:G; [|discriminate]. apply andb_true_iff in G. destruct G as [G Gb].
+  apply andb_true_iff in G. destruct G as [Gi G]. apply Nat.ltb_lt in Gi. phase_of G.
   injection L as <-. cbn [left_ ph mem]. rewrite !upd_same. split; [|split; reflexivity].
-  pose proof (forallb_seq _ _ G2 0 Hn) as X. apply Nat.leb_le in X. rewrite (I3 i Hp) in X. exact X.
+  pose proof (barrier_done_le _ _ _ Gb 0 ltac:(lia)) as B. pose proof (I_cnt _ _ I i) as C. rewrite Heqp in C. cbn in C. injection C as C1 C2 C3. lia.
 Qed.
 
-(* ---- non-overlapping rounds ------------------------------------------------------------------------------------ *)
-Definition InvS (n : nat) (s : pstate) : Prop :=
-  Inv n s /\ (ph s 0 = Writer -> forall j, j < n -> arrived s 0 <= left_ s j) /\ (forall j, j < n -> wround s <= S (left_ s j)).
-
-Lemma pstep_sync_pstep n s e s' : pstep_sync n s e = Some s' -> pstep n s e = Some s'.
-Proof. unfold pstep_sync. destruct e as [[|i]|i v|i|i]; try tauto. destruct (all_returned n s); [tauto|discriminate]. Qed.
-
-Lemma InvS_init n v : InvS n (pinit v).
-Proof. split; [apply Inv_init|]. split; [discriminate|]. intros j _. cbn. lia. Qed.
-
-Lemma InvS_step n s e s' : InvS n s -> pstep_sync n s e = Some s' -> InvS n s'.
+(* (d) ROUNDS DO NOT OVERLAP.  Whenever a rank is reading (it has returned from its k-th write_end and has not entered its next
+   write_start; k = 0: before the first round) the array is exactly what the writer left when it entered ITS k-th write_end:
+   the writer has completed exactly k rounds, it is not writing, and the last store into the array happened in a round <= k *)
+Theorem rounds_do_not_overlap n v es s i : prun n (pinit v) es = Some s -> i < n -> ph s i = Reading ->
+  mem s = snap s (left_ s i) /\ wround s <= left_ s i /\ arrived s 0 = left_ s i /\ sleft s 0 = left_ s i /\ ph s 0 <> Writer.
 Proof.
-  intros (I & S1 & S2) H. pose proof (pstep_sync_pstep _ _ _ _ H) as H'. pose proof (Inv_step _ _ _ _ I H') as I'.
-  split; [exact I'|]. destruct I as (I1 & I2 & I3 & I4 & I5).
-  destruct e as [i|i v|i|i].
-  - (* WS *)
-    destruct i as [|i].
-    + unfold pstep_sync in H. destruct (all_returned n s) eqn:A; [|discriminate]. clear H. cbn [pstep] in H'.
-      destruct ((0 <? n) && _); [|discriminate]. cbn [Nat.eqb] in H'. injection H' as <-. cbn [ph arrived left_ wround]. split; [|exact S2].
-      intros _ j Hj. pose proof (forallb_seq _ _ A j Hj) as X. apply Nat.eqb_eq in X. lia.
-    + cbn [pstep] in H'. destruct ((S i <? n) && _); [|discriminate]. cbn [Nat.eqb] in H'. injection H' as <-.
-      cbn [ph arrived left_ wround]. split; [|exact S2]. rewrite upd_other by discriminate. exact S1.
-  - (* WR *)
-    cbn [pstep] in H'. destruct ((i <? n) && match ph s i with Writer => true | _ => false end) eqn:G; [|discriminate].
-    apply andb_true_iff in G. destruct G as [_ G]. assert (Hp : ph s i = Writer) by (destruct (ph s i); try discriminate; reflexivity).
-    assert (i = 0) by (apply I1; exact Hp). subst i.
-    injection H' as <-. cbn [ph arrived left_ wround]. split; [exact S1|]. intros j Hj. specialize (S1 Hp j Hj). lia.
-  - (* WE_arrive *)
-    cbn [pstep] in H'. destruct ((i <? n) && match ph s i with Writer | NonWriter => true | _ => false end); [|discriminate].
-    injection H' as <-. cbn [ph arrived left_ wround]. split; [|exact S2].
-    destruct (Nat.eq_dec i 0) as [->|N]; [rewrite upd_same; discriminate|].
-    rewrite !(upd_other _ i _ 0) by (intro X; apply N; symmetry; exact X). exact S1.
-  - (* WE_leave *)
-    cbn [pstep] in H'. destruct ((i <? n) && _ && _); [|discriminate].
-    injection H' as <-. cbn [ph arrived left_ wround]. split.
-    + destruct (Nat.eq_dec i 0) as [->|N]; [rewrite upd_same; discriminate|].
-      rewrite (upd_other _ i _ 0) by (intro X; apply N; symmetry; exact X). intros Hw j Hj. specialize (S1 Hw j Hj).
-      destruct (Nat.eq_dec j i) as [->|Nj]; [rewrite upd_same; lia|rewrite upd_other by exact Nj; exact S1].
-    + intros j Hj. specialize (S2 j Hj). destruct (Nat.eq_dec j i) as [->|Nj]; [rewrite upd_same; lia|rewrite upd_other by exact Nj; exact S2].
+  intros H Hi Hr. pose proof (reach_Inv _ _ _ _ H) as I. assert (Hn : 0 < n) by lia.
+  pose proof (I_cnt _ _ I i) as Ci. rewrite Hr in Ci. cbn in Ci. injection Ci as C1 C2 C3.
+  pose proof (I_start _ _ I 0 i Hi) as S1. pose proof (I_end _ _ I i 0 Hn) as E1. pose proof (I_wround _ _ I) as W.
+  pose proof (I_cnt _ _ I 0) as C0.
+  assert (NW : ph s 0 <> Writer) by (intros X; rewrite X in C0; cbn in C0; injection C0 as D1 D2 D3; lia).
+  assert (A : arrived s 0 = left_ s i /\ sleft s 0 = left_ s i) by (destruct (ph s 0); cbn in C0; injection C0 as D1 D2 D3; lia).
+  destruct A as [A1 A2]. split; [rewrite <- A1; exact (I_mem _ _ I NW)|]. repeat split; try assumption. lia.
 Qed.
 
-Lemma InvS_run n es : forall s s', InvS n s -> prun_sync n s es = Some s' -> InvS n s'.
+(* the same seen from the writer: it cannot begin a round before every rank of the node has entered the write_start of that round,
+   i.e. has finished reading the previous one *)
+Theorem writer_waits_for_readers n v es s i : prun n (pinit v) es = Some s -> i < n ->
+  sleft s 0 <= sarrived s i /\ (ph s 0 = Writer -> ph s i <> Reading /\ left_ s i < sarrived s i).
 Proof.
-  induction es as [|e es IH]; intros s s' I H; cbn [prun_sync] in H; [injection H as <-; exact I|].
-  destruct (pstep_sync n s e) as [s1|] eqn:E; [|discriminate]. eapply IH; [eapply InvS_step; eassumption|exact H].
+  intros H Hi. pose proof (reach_Inv _ _ _ _ H) as I. assert (Hn : 0 < n) by lia.
+  pose proof (I_start _ _ I 0 i Hi) as S1. split; [exact S1|]. intros Hw.
+  pose proof (I_cnt _ _ I 0) as C0. rewrite Hw in C0. cbn in C0. injection C0 as D1 D2 D3. pose proof (I_end _ _ I i 0 Hn) as E1.
+  pose proof (I_cnt _ _ I i) as Ci. destruct (ph s i); cbn in Ci; injection Ci as F1 F2 F3; split; try discriminate; lia.
 Qed.
 
-(* when the writer starts a round only after every rank has returned from the previous write_end: a rank that
-   returns from its k-th write_end finds in the array what was stored in a round <= k (nothing of a later round),
-   and the writer is not writing at that moment *)
-Theorem synced_rounds_visible n v es s i s' : 0 < n -> prun_sync n (pinit v) es = Some s -> pstep_sync n s (WE_leave i) = Some s' ->
-  wround s' <= left_ s' i /\ left_ s' i <= arrived s' 0 /\ ph s' 0 <> Writer /\ mem s' = mem s.
-Proof.
-  intros Hn H L. destruct (InvS_run n es _ _ (InvS_init n v) H) as ((I1 & I2 & I3 & I4 & I5) & S1 & S2).
-  cbn [pstep_sync pstep] in L.
-  destruct ((i <? n) && match ph s i with InBarrier => true | _ => false end
-            && forallb (fun j => arrived s i <=? arrived s j) (seq 0 n)) eqn:G; [|discriminate].
-  apply andb_true_iff in G. destruct G as [G G2]. apply andb_true_iff in G. destruct G as [Gi G]. apply Nat.ltb_lt in Gi.
-  assert (Hp : ph s i = InBarrier) by (destruct (ph s i); try discriminate; reflexivity).
-  injection L as <-. cbn [left_ ph mem wround arrived]. rewrite !upd_same.
-  pose proof (forallb_seq _ _ G2 0 Hn) as X. apply Nat.leb_le in X. rewrite (I3 i Hp) in X.
-  split; [apply S2; exact Gi|]. split; [exact X|]. split; [|reflexivity].
-  destruct (Nat.eq_dec i 0) as [->|N]; [rewrite upd_same; discriminate|].
-  rewrite upd_other by (intro Y; apply N; symmetry; exact Y). intros Hw. specialize (S1 Hw i Gi). lia.
-Qed.
-
-(* ---- F-C14b: without that convention the rounds overlap --------------------------------------------------------- *)
-(* two ranks on the node; round 1 stores 11; rank 0 returns from write_end, starts round 2 and stores 22 while rank 1
-   is still inside the write_end of round 1 (the exclusive lock is taken with MPI_MODE_NOCHECK and does not wait);
-   rank 1 then returns from its FIRST write_end and reads 22 *)
+(* ---- F-C14b (repaired): the protocol WITHOUT the barrier of write_start (libsc before the repair) ---------------------------- *)
 Definition b2b_events : list event :=
-  [WS 0; WS 1; WR 0 11%Z; WE_arrive 0; WE_arrive 1; WE_leave 0; WS 0; WR 0 22%Z; WE_leave 1].
+  WS 0 ++ WS 1 ++ [WR 0 11%Z; WE_arrive 0; WE_arrive 1; WE_leave 0] ++ WS 0 ++ [WR 0 22%Z; WE_leave 1].
 
 Theorem back_to_back_refuted :
-  option_map (fun s => (left_ s 1, wround s, mem s, conflict s)) (prun 2 (pinit 0%Z) b2b_events) = Some (1, 2, 22%Z, true)
-  /\ prun_sync 2 (pinit 0%Z) b2b_events = None.
+  option_map (fun s => (ph s 1, left_ s 1, wround s, mem s, snap s 1, conflict s)) (prun_old 2 (pinit 0%Z) b2b_events)
+    = Some (Reading, 1, 2, 22%Z, 11%Z, true)
+  /\ prun 2 (pinit 0%Z) b2b_events = None.
 Proof. vm_compute. split; reflexivity. Qed.
 
-(* the MPI_MODE_NOCHECK assertion itself ("no conflicting lock is held") is false in the very first round: the writer
-   takes the exclusive lock while the other ranks still hold the shared lock of sc_shmem_malloc *)
 Theorem nocheck_conflict_reachable :
-  option_map conflict (prun_sync 2 (pinit 0%Z) [WS 0]) = Some true.
+  option_map conflict (prun_old 2 (pinit 0%Z) (WS 0)) = Some true /\ prun 2 (pinit 0%Z) (WS 0) = None.
+Proof. vm_compute. split; reflexivity. Qed.
+
+(* ---- the repaired protocol runs: two complete rounds on 2 and on 3 ranks, rounds back to back ------------------------------------ *)
+Definition two_rounds_2 : list event :=
+  [WS_arrive 1; WS_arrive 0; WS_leave 0; WR 0 11%Z; WS_leave 1; WE_arrive 1; WE_arrive 0; WE_leave 0;
+   WS_arrive 0; WE_leave 1; WS_arrive 1; WS_leave 0; WR 0 21%Z; WR 0 22%Z; WS_leave 1; WE_arrive 0; WE_arrive 1; WE_leave 1; WE_leave 0].
+Example two_rounds_on_2 :
+  option_map (fun s => (map (left_ s) [0; 1], map (ph s) [0; 1], wround s, mem s, (snap s 0, snap s 1, snap s 2), conflict s))
+    (prun 2 (pinit 0%Z) two_rounds_2)
+  = Some ([2; 2], [Reading; Reading], 2, 22%Z, (0%Z, 11%Z, 22%Z), false).
 Proof. vm_compute. reflexivity. Qed.
 
-(* the synchronised convention is satisfiable: two complete rounds *)
-Example synced_two_rounds :
-  option_map (fun s => (left_ s 0, left_ s 1, wround s, mem s))
-    (prun_sync 2 (pinit 0%Z) [WS 1; WS 0; WR 0 11%Z; WE_arrive 1; WE_arrive 0; WE_leave 1; WE_leave 0;
-                              WS 0; WR 0 22%Z; WS 1; WE_arrive 0; WE_arrive 1; WE_leave 0; WE_leave 1])
-  = Some (2, 2, 2, 22%Z).
+Definition two_rounds_3 : list event :=
+  [WS_arrive 2; WS_arrive 0; WS_arrive 1; WS_leave 1; WS_leave 0; WR 0 11%Z; WE_arrive 1; WS_leave 2; WE_arrive 0; WE_arrive 2;
+   WE_leave 0; WS_arrive 0; WE_leave 2; WE_leave 1; WS_arrive 1; WS_arrive 2; WS_leave 0; WR 0 22%Z; WS_leave 2; WS_leave 1;
+   WE_arrive 0; WE_arrive 1; WE_arrive 2; WE_leave 2; WE_leave 1; WE_leave 0].
+Example two_rounds_on_3 :
+  option_map (fun s => (map (left_ s) [0; 1; 2], map (lk s) [0; 1; 2], wround s, mem s, (snap s 1, snap s 2), conflict s))
+    (prun 3 (pinit 0%Z) two_rounds_3)
+  = Some ([2; 2; 2], [SharedLock; SharedLock; SharedLock], 2, 22%Z, (11%Z, 22%Z), false).
 Proof. vm_compute. reflexivity. Qed.
+
+(* ---- the barriers cannot deadlock: in every reachable state some rank can take its next step ----------------------------------- *)
+Lemma argmin (f : nat -> nat) n : 0 < n -> exists r, r < n /\ forall j, j < n -> f r <= f j.
+Proof.
+  induction n as [|n IH]; [lia|]. intros _. destruct n as [|n]; [exists 0; split; [lia|]; intros j Hj; replace j with 0 by lia; lia|].
+  destruct (IH ltac:(lia)) as (r & Hr & M). destruct (le_lt_dec (f r) (f (S n))) as [L|L].
+  - exists r. split; [lia|]. intros j Hj. destruct (Nat.eq_dec j (S n)) as [->|N]; [exact L|apply M; lia].
+  - exists (S n). split; [lia|]. intros j Hj. destruct (Nat.eq_dec j (S n)) as [->|N]; [lia|]. specialize (M j ltac:(lia)). lia.
+Qed.
+Lemma barrier_done_intro n cnt i : (forall j, j < n -> cnt i <= cnt j) -> barrier_done n cnt i = true.
+Proof. intros H. unfold barrier_done. apply forallb_forall. intros j Hj. apply in_seq in Hj. apply Nat.leb_le. apply H. lia. Qed.
+
+Theorem no_deadlock n v es s : 0 < n -> prun n (pinit v) es = Some s -> exists e s', pstep n s e = Some s'.
+Proof.
+  intros Hn H. pose proof (reach_Inv _ _ _ _ H) as I.
+  destruct (argmin (fun j => sarrived s j + arrived s j) n Hn) as (r & Hr & M).
+  assert (Lt : (r <? n) = true) by (apply Nat.ltb_lt; exact Hr).
+  pose proof (I_cnt _ _ I r) as Cr. destruct (ph s r) eqn:Pr; cbn in Cr; injection Cr as C1 C2 C3.
+  - exists (WS_arrive r). unfold pstep; cbn [pstep_gen]. rewrite Lt, Pr. cbn. eexists; reflexivity.
+  - exists (WS_leave r). unfold pstep; cbn [pstep_gen]. rewrite Lt, Pr. cbn [andb negb orb].
+    rewrite barrier_done_intro.
+    + destruct (r =? 0); eexists; reflexivity.
+    + intros j Hj. specialize (M j Hj). cbn beta in M. pose proof (I_cnt _ _ I j) as Cj.
+      destruct (ph s j); cbn in Cj; injection Cj as D1 D2 D3; lia.
+  - exists (WE_arrive r). unfold pstep; cbn [pstep_gen]. rewrite Lt, Pr. cbn. eexists; reflexivity.
+  - exists (WE_arrive r). unfold pstep; cbn [pstep_gen]. rewrite Lt, Pr. cbn. eexists; reflexivity.
+  - exists (WE_leave r). unfold pstep; cbn [pstep_gen]. rewrite Lt, Pr. cbn [andb].
+    rewrite barrier_done_intro; [eexists; reflexivity|].
+    intros j Hj. specialize (M j Hj). cbn beta in M. pose proof (I_cnt _ _ I j) as Cj.
+    destruct (ph s j); cbn in Cj; injection Cj as D1 D2 D3; lia.
+Qed.
